@@ -16,8 +16,16 @@ Fixpoint decode_senders (fuel : nat) (n : nat) (fs : list bytes) : list (list by
 Definition issued_of (i : list bytes) : list (list bytes) :=
   decode_senders (length i) (get_nat i 0) (skipn 3 i).
 
+(* senders with index = 3 mod 4 issue every other line through Conn.Pong: the wire line is
+   then "PONG :" ++ line (which verb a method puts in front is C08's business, not C09's).  [unwrap] removes that prefix so that tags and contents are compared
+   with what the sender issued. *)
+Definition pong_prefix : bytes := [80; 79; 78; 71; 32; 58]%N.
+Definition unwrap (l : bytes) : bytes :=
+  if has_prefix l pong_prefix then skipn 6 l else l.
+
 (* the sender tag of a wire line: the decimal number before the first ':' *)
-Definition tag_of (l : bytes) : option nat :=
+Definition tag_of (l0 : bytes) : option nat :=
+  let l := unwrap l0 in
   let k := index l [58%N] in
   if k <? 0 then None
   else match N_of_dec (firstn (Z.to_nat k) l) with Some n => Some (N.to_nat n) | None => None end.
@@ -26,7 +34,7 @@ Fixpoint tag_all (ls : list bytes) : option (list tagged) :=
   match ls with
   | [] => Some []
   | l :: ls' => match tag_of l, tag_all ls' with
-                | Some t, Some r => Some ((t, l) :: r)
+                | Some t, Some r => Some ((t, unwrap l) :: r)
                 | _, _ => None
                 end
   end.
